@@ -65,6 +65,12 @@ def wMergeRename : VWitness :=
 def wMapIndexUnfold : VWitness :=
   { ss := wSchema [], files := wFile [] [.mapToIndex (.byName "S.flags"), .unfoldBoolean (.byName "S.flags") "on" "off"] }
 
+def wSfOptsAfterAppend : VWitness :=
+  { ss := wSchema [
+      ("I", { name := "I", selfPkg := "p", selfName := "I", ty := .struct [{ name := "x", ty := wStr, required := false }] [] none {} }),
+      ("L", { name := "L", selfPkg := "p", selfName := "L", ty := .struct [{ name := "items", ty := .array (.ref "p" "I" {}) {}, required := false }] [] none {} })],
+    files := wFile [] [.arrayToAppend (.byName "L.items"), .structFieldsAsOptions (.byName "L.items") none] }
+
 def vWitness : String → Option VWitness
   | "dup-option-default" => some wDupOption
   | "dup-builder-default" => some wDupBuilder
@@ -73,6 +79,7 @@ def vWitness : String → Option VWitness
   | "promote-array-to-append" => some wPromoteAppend
   | "merge-rename-arguments" => some wMergeRename
   | "map-index-unfold" => some wMapIndexUnfold
+  | "sf-opts-after-append" => some wSfOptsAfterAppend
   | _ => none
 
 end Cog.Builder
